@@ -1752,6 +1752,38 @@ fn run_fixture(f: &Fixture, obs: &mut Obs) -> CheckResult {
     }
 }
 
+//------------ sub-check: big lists ---------------------------------------------------------
+
+/// Builders handed lists longer than a counter of 8 or 16 bits can count: a manifest with
+/// 65 536 / 65 537 / 70 001 files goes through the same twin comparison as the generated
+/// cases. (A CRL of that size is left out: the membership oracle asks `contains`, which is
+/// linear by design, for every entry.)
+#[derive(Clone, Debug, Serialize, Deserialize)]
+pub struct BigList {
+    pub idx: u64,
+}
+
+fn template<T: std::fmt::Debug>(s: BoxedStrategy<T>) -> Result<T, Fail> {
+    use proptest::strategy::ValueTree;
+    let mut runner = proptest::test_runner::TestRunner::deterministic();
+    let mut tree = s.new_tree(&mut runner).map_err(|e| Fail::new(format!("harness: no template case: {}", e)))?;
+    while tree.simplify() {}
+    Ok(tree.current())
+}
+
+fn run_big_list(b: &BigList, obs: &mut Obs) -> CheckResult {
+    obs.nontrivial();
+    match b.idx {
+        0..=2 => {
+            let n = [65_536usize, 65_537, 70_001][b.idx as usize];
+            let mut c = template(mft_strategy(Tier::Quick))?;
+            c.files = (0..n).map(|i| (format!("f{:x}.roa", i), keys::sha256(&(i as u64).to_be_bytes()).to_vec())).collect();
+            run_mft(&c, obs)
+        }
+        _ => Err(Fail::new("malformed case")),
+    }
+}
+
 pub fn property() -> Property {
     Property {
         id: "C05",
@@ -1781,6 +1813,7 @@ pub fn property() -> Property {
             PropSub { name: "sigmsg", strategy: sigmsg_strategy, cases: |t| t.pick(9_000, 60_000), run: run_sigmsg,
                 floors: &[("content>=128", 0.2), ("content<128", 0.2)] }.boxed(),
             EnumSub { name: "fixtures", count: |_, _| 2, make: |_, _, idx| Fixture { idx }, run: run_fixture, exhaustive: false }.boxed(),
+            EnumSub { name: "big-lists", count: |_, _| 3, make: |_, _, idx| BigList { idx }, run: run_big_list, exhaustive: false }.boxed(),
         ],
     }
 }
